@@ -7,7 +7,7 @@ implementation is compared with) against the total pipeline the algebraic develo
   component's memory, sticky flag and of the other agents' rewards); when every configured component is `compOK` on the
   post-step state and its agent's new item, `gameStepE` IS `gameStep`.
 -/
-import PrimaiteModel.Lemmas.RewardGame
+import PrimaiteModel.Lemmas.RewardConfig
 namespace Primaite.Reward
 open Primaite.RewardGraph
 
@@ -306,5 +306,43 @@ theorem gameStepE_eq (g : Game) (items : Name → Item) (s : SimState)
     unfold AgentOK pushItem
     simp only
     exact hok n a0 hg
+
+/-- a run of steps with exceptions (what the driver executes between two `load` / `envreset` commands) -/
+def runE : Game → List ((Name → Item) × SimState) → Except Err Game
+  | g, [] => .ok g
+  | g, (items, s) :: rest =>
+    match gameStepE g items s with
+    | .ok g' => runE g' rest
+    | .error e => .error e
+
+theorem runE_sound (steps : List ((Name → Item) × SimState)) :
+    ∀ g g', runE g steps = .ok g' → run g steps = .ok g' := by
+  induction steps with
+  | nil => intro g g' h; exact h
+  | cons st rest ih =>
+    obtain ⟨items, s⟩ := st
+    intro g g' h
+    simp only [runE] at h
+    simp only [run]
+    cases h1 : gameStepE g items s with
+    | error e => rw [h1] at h; cases h
+    | ok g1 =>
+      rw [h1] at h
+      rw [gameStepE_sound h1]
+      exact ih _ _ h
+
+theorem run_append (xs ys : List ((Name → Item) × SimState)) :
+    ∀ g, run g (xs ++ ys) = match run g xs with
+      | .ok g' => run g' ys
+      | .error e => .error e := by
+  induction xs with
+  | nil => intro g; rfl
+  | cons st rest ih =>
+    obtain ⟨items, s⟩ := st
+    intro g
+    simp only [List.cons_append, run]
+    cases gameStep g items s with
+    | error e => rfl
+    | ok g1 => exact ih g1
 
 end Primaite.Reward
